@@ -332,8 +332,9 @@ func (propC10) Exec(x any, choices []int32) RunOut {
 				break
 			}
 			b := content
+			var cb callerBuf
 			for _, n := range c.Writes {
-				if _, err := f.Write(b[:n]); err != nil {
+				if _, err := cb.write(f, b[:n]); err != nil {
 					opErr = err
 					break
 				}
